@@ -305,6 +305,12 @@ def check(ctx):
                     if o[1].name in ("next", "pop") or nm in ("HashSet::contains", "HashMap::contains_key", "TypeDependencyGraph::get_type_definition_path", "AstCache::get_cloned",
                                                                "CommandAnalyzer::extract_type_from_ast", "Option::cloned", "TypeDependencyGraph::has_type_definition") or is_try_branch(o[1]):
                         continue
+                    # the worklist's own exhaustion test (`while !pending.is_empty() { let t = pending.pop().unwrap(); .. }`)
+                    if o[1].name == "is_empty" and o[1].args:
+                        from unord import Unord as _U
+                        wl_ = {_U._base_local(None, f, c2.args[0]) for c2 in f.calls if short_path(c2.path) in ("Vec::pop", "VecDeque::pop_front", "VecDeque::pop_back") and c2.args}
+                        if _U._base_local(None, f, o[1].args[0]) in wl_:
+                            continue
                     extra.append(nm)
                 elif o[0] in ("proj", "multi", "arg"):
                     continue
